@@ -13,9 +13,7 @@ and do not fail the run; anything else does.  Exit status 0 only if all matched.
 """
 import argparse, collections, os, random, shutil, subprocess, sys, tempfile, time, zlib
 sys.path.insert(0, os.path.dirname(os.path.abspath(__file__)))
-from vgen import cab
-try: from vgen import chm, kwaj, oab, szdd
-except ImportError: chm = kwaj = oab = szdd = None
+from vgen import cab, chm, kwaj, oab, szdd
 
 MODS = {'cab': cab, 'chm': chm, 'szdd': szdd, 'kwaj': kwaj, 'oab': oab}
 SRC = 'system cabd chmd kwajd szddd oabd lzxd qtmd mszipd lzssd crc32'.split()
